@@ -155,6 +155,14 @@ pub(crate) struct Env {
     /// profiling.
     pub(crate) profile: bool,
 
+    /// The values popped from the current stack frame so far in the
+    /// current evaluation step, most recently popped last. See
+    /// `rollback_step`.
+    pub(crate) step_popped_values: Vec<Value>,
+    /// The smallest size of the current stack frame's value stack
+    /// during the current evaluation step.
+    pub(crate) step_values_low_water: usize,
+
     /// The maximum number of bindings blocks present in any single
     /// stack frame at any point during evaluation (a high-water mark).
     /// It grows with lexical nesting. Used only by tests, see
@@ -208,6 +216,8 @@ impl Env {
             initial_state: None,
             cli_args: vec![],
             profile: false,
+            step_popped_values: vec![],
+            step_values_low_water: 0,
             #[cfg(test)]
             peak_binding_depth: 0,
         };
@@ -379,7 +389,51 @@ impl Env {
 
     pub(crate) fn pop_value(&mut self) -> Option<Value> {
         let stack_frame = self.stack.0.last_mut().unwrap();
-        stack_frame.evalled_values.pop()
+        let value = stack_frame.evalled_values.pop();
+
+        // Remember values popped below the size the stack had at the
+        // start of this step, so `rollback_step` can put them back.
+        if let Some(value) = &value {
+            let len = stack_frame.evalled_values.len();
+            if len < self.step_values_low_water {
+                self.step_values_low_water = len;
+                self.step_popped_values.push(value.clone());
+            }
+        }
+
+        value
+    }
+
+    /// Note the state of the current stack frame before evaluating
+    /// one step, so the step can be undone with `rollback_step`.
+    pub(crate) fn begin_step(&mut self) -> (usize, usize) {
+        let stack_frame = self.stack.0.last().unwrap();
+        self.step_values_low_water = stack_frame.evalled_values.len();
+        self.step_popped_values.clear();
+
+        (
+            stack_frame.exprs_to_eval.len(),
+            stack_frame.bindings.block_bindings.len(),
+        )
+    }
+
+    /// Undo the changes that a failed step made to the current stack
+    /// frame: restore the values it popped and discard anything it
+    /// pushed. This ensures that retrying the step (e.g. with
+    /// `:resume`) sees exactly the same state.
+    pub(crate) fn rollback_step(&mut self, exprs_len: usize, blocks_len: usize) {
+        let stack_frame = self.stack.0.last_mut().unwrap();
+
+        stack_frame
+            .evalled_values
+            .truncate(self.step_values_low_water);
+        while let Some(value) = self.step_popped_values.pop() {
+            stack_frame.evalled_values.push(value);
+        }
+
+        stack_frame.exprs_to_eval.truncate(exprs_len);
+        stack_frame.bindings.block_bindings.truncate(blocks_len);
+        stack_frame.bindings_next_block.clear();
     }
 
     pub(crate) fn current_namespace(&self) -> Rc<RefCell<NamespaceInfo>> {
